@@ -163,7 +163,7 @@ struct ShapeDom : CellSpace<ShapeDom<K> > {
   void join(S& a, const S& b) const { a.upper_bound_assign(b); }
   bool ok(const S& s) const { return s.OK(); }
   S* empty() const { return new S(dim, PPL::EMPTY); }
-  std::string repdep_caveat(const std::string&, const Cell&, const Cell&, const std::string&, const std::string&) const { return ""; }
+  std::string repdep_caveat(const std::string&, const Cell&, const Cell&, const std::string&, const std::string&, const std::string&) const { return ""; }
 
   PPL::Constraint_System cs_of(const std::vector<CN>& v) const {
     PPL::Constraint_System cs;
